@@ -82,6 +82,15 @@ class P:
                 cases.append(X.case(args, X.NOGLOB | (X.NOUNSET if nounset else 0), vs, 0, parts))
                 if st != "val":
                     break
+        # $- with no option on: set and null (never unset)
+        for op, quoted, nounset_bit in itertools.product(OPS, (False, True), (0,)):
+            if op == "#len":
+                pe = X.P("-", "#", None)
+            elif op == "":
+                pe = X.P("-", "", None)
+            else:
+                pe = X.P("-", op, [X.L("w")])
+            cases.append(X.case(["sh"], 0, {"IFS": None}, 0, [X.Q('"', pe)] if quoted else [pe]))
         # $@ and $*
         at = []
         for name, quoted, n, ifs, nounset in itertools.product("@*", (False, True), range(0, 4), IFSS + [":x"], (False, True)):
